@@ -37,7 +37,7 @@ func init() {
 	evals["p12pweq"] = evalP12pweq
 	evals["bigticket"] = evalBigticket
 	// (kf.go is initialised after c14.go / c16.go / c17.go: file order) the recorded inputs run with their property
-	for _, prop := range []string{"C14", "C16", "C17"} {
+	for _, prop := range []string{"C01", "C07", "C14", "C16", "C17"} {
 		prop, g := prop, gens[prop]
 		if g == nil {
 			continue
@@ -45,6 +45,15 @@ func init() {
 		gens[prop] = func(r *rng, tier string, emit func(string)) {
 			g(r, tier, emit)
 			genKnownFindings(prop, newRng(0x6b66), emit)
+			if prop == "C01" {
+				genSm2signi(newRng(0x7369), emit)
+			}
+			if prop == "C07" {
+				genRecwfail(newRng(0x7766), emit)
+			}
+			if prop == "C17" {
+				genP7multi(newRng(0x6d75), emit)
+			}
 		}
 	}
 }
